@@ -147,6 +147,13 @@ func (w *c07World) line(c *Ctx, in string) {
 		res = w.cb(parts[1], agent.BEACON_OUTPUT, body(fI(agent.CALLBACK_FILE_WRITE), fY(append(be32b(num(2)), arg(3)...))))
 	case "bclose":
 		res = w.cb(parts[1], agent.BEACON_OUTPUT, body(fI(agent.CALLBACK_FILE_CLOSE), fY(be32b(num(2)))))
+	case "tctl": // tctl <agent> <sub: 0 list | 1 stop | 2 resume | 3 remove> <fileid> <x> <y>: the agent's transfer callbacks; none of them touches a file
+		sub := num(2)
+		if sub == 0 {
+			res = w.cb(parts[1], agent.COMMAND_TRANSFER, body(fI(agent.DEMON_COMMAND_TRANSFER_LIST), fI(num(3)), fI(num(4)), fI(num(5))))
+		} else {
+			res = w.cb(parts[1], agent.COMMAND_TRANSFER, body(fI(sub), fI(num(4)), fI(num(3))))
+		}
 	case "svcdl": // third-party agent download: logr.DemonAddDownloadedFile(<idhex>, <namehex>, <content>)
 		res = guard(func() string {
 			logr.LogrInstance.DemonAddDownloadedFile(string(arg(1)), strings.Replace(string(arg(2)), "\x00", "", -1), arg(3))
@@ -212,9 +219,13 @@ func runC07(c *Ctx) {
 	r := c.R
 	names := []string{"C:\\Users\\bob\\notes.txt", "notes.txt", "..\\..\\evil.txt", "../../../etc/passwd", "a/b/c.bin", "..\\Download_evil\\x.txt",
 		"dir\\..\\..\\up.txt", "", "C:\\", "\\\\srv\\share\\f", "x\x00y.txt", "..\\Download\\..\\..\\Screenshots\\s.png", "....//....//w", "C:/Users/bob/notes.txt",
-		"ünï.txt", "a\\..\\b.txt", "..", ".", "Download", "..\\Downloadx", "/abs/olute", "a//b", "sub\\", "..\\..\\00000a02\\Download\\steal.txt", "n\x00"}
+		"ünï.txt", "a\\..\\b.txt", "..", ".", "Download", "..\\Downloadx", "/abs/olute", "a//b", "sub\\", "..\\..\\00000a02\\Download\\steal.txt", "n\x00",
+		// siblings of the loot directories whose names begin like them, reached with either separator
+		"../Downloads", "../Download.bak", "../Download_notes.txt", "../Download_evil/x.txt", "../Downloadx/../y", "../Screenshotsx", "../Screenshots_evil/s.png", "../Download", "../Download/in.txt"}
 	ids := []string{"00000a01", "00000a02", "0000000b"}
-	evilIDs := []string{"00000a01", "../../escaped", "../listener", "00000a01/../0000beef", ".", "..", "", "a/b", "x\\y", "00000a02", "....", "Download"}
+	// ids of third-party agents: never the id of a registered Demon (the teamserver refuses a second agent with an id in use), so that a
+	// service download and a Demon transfer cannot be two writers of one local file
+	evilIDs := []string{"00000c01", "../../escaped", "../listener", "00000a01/../0000beef", ".", "..", "", "a/b", "x\\y", "00000c02", "....", "Download"}
 	for c.Lines < c.N {
 		w.line(c, "reset")
 		for _, id := range ids {
@@ -284,6 +295,10 @@ func runC07(c *Ctx) {
 					c.Count("dlclose")
 					w.line(c, fmt.Sprintf("dlclose %s %d %d", id, fid, r.Intn(2)))
 				}
+			case k < 15 && len(open) > 0 && r.Chance(2, 3): // what `transfer list / stop / resume / remove` report while downloads are open
+				o := open[r.Intn(len(open))]
+				c.Count("tctl")
+				w.line(c, fmt.Sprintf("tctl %s %d %d %d %d", o.id, r.Intn(4), o.fid, gen.Pick(r, []int{0, 1, 1, 100, 5000}), r.Intn(5)))
 			case k < 16:
 				c.Count("svcdl")
 				w.line(c, fmt.Sprintf("svcdl %s %s %s", hx([]byte(gen.Pick(r, evilIDs))), hx([]byte(name)), hx(r.Bytes(r.Intn(10)))))
@@ -299,6 +314,18 @@ func runC07(c *Ctx) {
 			default:
 				c.Count("output")
 				w.line(c, "output "+hx([]byte(gen.Pick(r, evilIDs))))
+			}
+		}
+		// every transfer still open is closed: the content clause is decided at the close
+		seen := map[string]bool{}
+		for _, o := range open {
+			k := fmt.Sprintf("%s/%d", o.id, o.fid)
+			if seen[k] {
+				continue
+			}
+			seen[k] = true
+			for i := 0; i < 2; i++ { // an id opened twice has two transfers
+				w.line(c, fmt.Sprintf("dlclose %s %d 0", o.id, o.fid))
 			}
 		}
 	}
